@@ -18,7 +18,7 @@ CHECKS = {
  'C03': ('the multi-threaded scenarios of the other properties executed under ThreadSanitizer (clang++) on the virtual runtime with generated/swept schedules; the baton is invisible to TSan and atomic_thread_fence is modelled explicitly; oracle = happens-before race detector + payload checksums',
          EXPL + 'Data races are decided exactly for the executed accesses under the declared memory orders (happens-before analysis, not timing), for every explored interleaving.',
          SC + '; stale values that only weakly ordered hardware produces through relaxed atomics alone are out of reach; shared_ptr internals are not interposed', '3 C03'),
- 'C04': ('rapidcheck-generated chains of scripted async coroutines (13 start modes x 5 completion modes x 4 result types, depth 1..5; optionally a second thread waiting on the root's future, optionally the root launched by a destructor during stack unwinding) on the virtual runtime; oracle = body-run counters, launcher-received outcome, argument/local guards, instance counting, allocation balance, ASan, deadlock detector',
+ 'C04': ('rapidcheck-generated chains of scripted async coroutines (13 start modes x 5 completion modes x 4 result types, depth 1..5; optionally a second thread waiting on the future of the root, optionally the root launched by a destructor during stack unwinding) on the virtual runtime; oracle = body-run counters, launcher-received outcome, argument/local guards, instance counting, allocation balance, ASan, deadlock detector',
          EXPL, SC + '; depth <= 5, one pool worker, one resolver thread', '3 C04'),
  'C05': ('stateful byte-decoded single-thread programs of 1..8 scripted coroutines; oracle = online comparison of who gains control with a reference model of the ready queue (FIFO of batches, pause round-robin, suspend-point hand-over, direct-resume loop of ordinary code) + full-drain check',
          EXPL + 'The reference model was validated against the unchanged tree over several seeds; order inside one operation\'s batch is deliberately not asserted.', SEQ + '; <=8 coroutines x <=6 steps over 18 step kinds (a thread pool with one occupied worker is the only other thread; zero schedule)', '3 C05'),
